@@ -36,6 +36,7 @@ class Sched:
         self.waiting = {}
         self.cur = None
         self.trace = []          # chosen actor at every decision
+        self.decisions = []      # (runnable actors, chosen) at every decision (systematic search)
         self.res = {}
         self.err = {}
         self.steps = 0
@@ -192,6 +193,7 @@ class Sched:
                 r = others
         nxt = self._choose(r, None if finished else me)
         self.trace.append(nxt)
+        self.decisions.append((tuple(r), nxt))
         if nxt == me and not finished:
             return
         self.cur = nxt
@@ -310,6 +312,7 @@ class Sched:
             r = self._runnable()
             first = self._choose(r, None)
             self.trace.append(first)
+            self.decisions.append((tuple(r), first))
             self.cur = first
             SIM.actor = first
             self.gate[first].release()
